@@ -9,9 +9,10 @@ open AsyncsshModel
 /-- endpoint-local invariant (no history needed) -/
 structure WF (c : Chan) : Prop where
   s : WFs c
-  exit : c.sendBuf = [] ∨ c.sendWindow = 0
+  exit : c.sendBuf = [] ∨ c.sendWindow = 0 ∨ c.sendPktsize = 0
   unpaused : c.recvPaused = .no → c.recvBuf = []
   closeP : c.recvState = .closePending → c.recvPaused ≠ .no
+  closePB : c.recvState = .closePending → c.recvBuf ≠ []
   closedR : c.recvState = .closed → c.recvBuf = []
   half : 2 * c.recvWindow ≥ c.initWindow
 
@@ -41,7 +42,7 @@ theorem closeSend_spec (c : Chan) (hw : WFs c) :
   · rename_i hs
     have hop : c.sendChanOpen = true := hw.chanOpen.mpr hs
     have hst : sStage c ≤ 1 := sStage_le_of_open hw hop
-    exact ⟨⟨rfl, rfl, rfl, rfl, rfl, rfl, rfl, rfl, rfl, rfl⟩, rfl, rfl, rfl, rfl,
+    exact ⟨⟨rfl, rfl, rfl, rfl, rfl, rfl, rfl, rfl, rfl, rfl, rfl⟩, rfl, rfl, rfl, rfl,
       by simp [sendPkt_open c _ hop, LinkOK, hst], by simp [sendPkt_open c _ hop, dataOf],
       by simp [sendPkt_open c _ hop, adjustSum], ⟨by simp, fun _ => rfl⟩⟩
   · rename_i hs
@@ -51,7 +52,7 @@ theorem closeSend_spec (c : Chan) (hw : WFs c) :
       cases h : c.sendChanOpen
       · rfl
       · exact absurd hs' (hw.chanOpen.mp h)
-    exact ⟨⟨rfl, rfl, rfl, rfl, rfl, rfl, rfl, rfl, rfl, rfl⟩, rfl, rfl, hs', hop, by simp [LinkOK, sStage, hs'],
+    exact ⟨⟨rfl, rfl, rfl, rfl, rfl, rfl, rfl, rfl, rfl, rfl, rfl⟩, rfl, rfl, hs', hop, by simp [LinkOK, sStage, hs'],
       by simp [dataOf], by simp [adjustSum], ⟨by simp [hop, hs'], fun _ => rfl⟩⟩
 
 structure DiscardSpec (c c' : Chan) (os : List Out) : Prop where
@@ -63,6 +64,7 @@ structure DiscardSpec (c c' : Chan) (os : List Out) : Prop where
   recvBuf : c'.recvBuf = []
   recvPaused : c'.recvPaused = .no
   recvWindow : c'.recvWindow = c.recvWindow
+  recvEofPending : c'.recvEofPending = c.recvEofPending
   fired : os = [.lost] ∧ c.recvState = .closePending ∧ c'.recvState = .closed ∨
           os = [] ∧ c.recvState ≠ .closePending ∧ c'.recvState = c.recvState
 
@@ -71,9 +73,9 @@ theorem discardRecv_spec (c : Chan) : DiscardSpec c (discardRecv c).1 (discardRe
   simp only
   split
   · rename_i hs
-    exact ⟨⟨rfl, rfl, rfl, rfl, rfl⟩, rfl, rfl, rfl, rfl, rfl, rfl, rfl, Or.inl ⟨rfl, hs, rfl⟩⟩
+    exact ⟨⟨rfl, rfl, rfl, rfl, rfl⟩, rfl, rfl, rfl, rfl, rfl, rfl, rfl, rfl, Or.inl ⟨rfl, hs, rfl⟩⟩
   · rename_i hs
-    exact ⟨⟨rfl, rfl, rfl, rfl, rfl⟩, rfl, rfl, rfl, rfl, rfl, rfl, rfl, Or.inr ⟨rfl, hs, rfl⟩⟩
+    exact ⟨⟨rfl, rfl, rfl, rfl, rfl⟩, rfl, rfl, rfl, rfl, rfl, rfl, rfl, rfl, Or.inr ⟨rfl, hs, rfl⟩⟩
 
 /-! ### inversion of `step` per event -/
 
@@ -171,7 +173,7 @@ theorem step_start_ok {c c' : Chan} {ms : List Msg} {os : List Out}
 
 theorem step_recv_data_ok {c c' : Chan} {dt : DType} {bs : Bytes} {ms : List Msg} {os : List Out}
     (h : step c (.recv (.data dt bs)) = .ok (c', ms, os)) :
-    c.recvState = .opn ∧ typeOk c.readTypes dt = true ∧ (bs.length : Int) ≤ c.recvWindow ∧
+    c.recvState = .opn ∧ typeOk c.readTypes dt = true ∧ (bs.length : Int) ≤ c.recvWindow - bufBytes c.recvBuf ∧
     acceptData c bs dt = (c', ms, os) := by
   simp only [step, recvMsg] at h
   split at h
@@ -212,7 +214,8 @@ theorem step_recv_eof_ok {c c' : Chan} {ms : List Msg} {os : List Out}
 theorem step_recv_close_ok {c c' : Chan} {ms : List Msg} {os : List Out}
     (h : step c (.recv .close) = .ok (c', ms, os)) :
     recvOpenish c.recvState = true ∧
-    ∃ ms1, flushRecv { (closeSend c).1 with recvState := .closePending } = some (c', ms1, os) ∧
+    ∃ ms1, flushRecv { (closeSend c).1 with recvEofPending := decide (c.recvState = .eofPending),
+                                            recvState := .closePending } = some (c', ms1, os) ∧
            ms = (closeSend c).2 ++ ms1 := by
   simp only [step, recvMsg] at h
   split at h
@@ -242,13 +245,14 @@ theorem WF.of_sendSpec {c0 c c' : Chan} {ms : List Msg} (hw : WF c0) (sp : SendS
     (h4 : c.recvWindow = c0.recvWindow) (h5 : c.initWindow = c0.initWindow) : WF c' :=
   ⟨sp.wf, sp.exit, by rw [sp.same.recvPaused, sp.same.recvBuf, h1, h2]; exact hw.unpaused,
    by rw [sp.same.recvPaused, sp.same.recvState, h1, h3]; exact hw.closeP,
+   by rw [sp.same.recvState, sp.same.recvBuf, h2, h3]; exact hw.closePB,
    by rw [sp.same.recvState, sp.same.recvBuf, h2, h3]; exact hw.closedR,
    by rw [sp.same.recvWindow, sp.same.initWindow, h4, h5]; exact hw.half⟩
 
 theorem WF.of_flushRecv {c c' : Chan} {ms : List Msg} {os : List Out} (sp : FlushRecvSpec c c' ms os)
-    (hexit : c.sendBuf = [] ∨ c.sendWindow = 0) (hcl : c.recvState = .closed → c.recvBuf = [])
+    (hexit : c.sendBuf = [] ∨ c.sendWindow = 0 ∨ c.sendPktsize = 0) (hcl : c.recvState = .closed → c.recvBuf = [])
     (hhalf : 2 * c.recvWindow ≥ c.initWindow) : WF c' :=
-  ⟨sp.eff.wfs, sp.exit hexit, sp.unpaused, sp.closeP, sp.closedR hcl, sp.eff.half hhalf⟩
+  ⟨sp.eff.wfs, sp.exit hexit, sp.unpaused, sp.closeP, sp.closePB, sp.closedR hcl, sp.eff.half hhalf⟩
 
 theorem acceptData_cases (c : Chan) (bs : Bytes) (dt : DType) :
     (bs = [] ∧ acceptData c bs dt = (c, [], [])) ∨
@@ -278,9 +282,9 @@ theorem step_wf (c c' : Chan) (ev : Ev) (ms : List Msg) (os : List Out) (hw : WF
       exact hw.of_sendSpec (flushSend_spec _ _ _ hw0 h1) rfl rfl rfl rfl rfl
   | writeEof =>
     obtain ⟨h1, _⟩ := step_writeEof_ok h
-    obtain ⟨e, h2, h3, h4, h5, _, h7⟩ := writeEof_spec _ _ _ hw.s h1
+    obtain ⟨e, h2, h3, h4, h5, _, _, h7⟩ := writeEof_spec _ _ _ hw.s h1
     exact ⟨e.wfs, h7 hw.exit, by rw [h4, h3]; exact hw.unpaused, by rw [h4, h2]; exact hw.closeP,
-      by rw [h2, h3]; exact hw.closedR, by rw [h5, e.cfg.initWindow]; exact hw.half⟩
+      by rw [h2, h3]; exact hw.closePB, by rw [h2, h3]; exact hw.closedR, by rw [h5, e.cfg.initWindow]; exact hw.half⟩
   | close =>
     obtain ⟨c1, h1, h2⟩ := step_close_ok h
     have hw1 : WF c1 := by
@@ -293,16 +297,17 @@ theorem step_wf (c c' : Chan) (ev : Ev) (ms : List Msg) (os : List Out) (hw : WF
     · have hss := discardRecv_spec c1
       refine ⟨⟨by rw [hss.sendChanOpen, hss.sendState]; exact hw1.s.chanOpen,
                by rw [hss.sendState, hss.sendBuf]; exact hw1.s.drained⟩,
-              by rw [hss.sendBuf, hss.sendWindow]; exact hw1.exit, fun _ => hss.recvBuf, ?_, fun _ => hss.recvBuf,
-              by rw [hss.recvWindow, hss.cfg.initWindow]; exact hw1.half⟩
-      intro hcp
-      rcases hss.fired with ⟨_, _, h3⟩ | ⟨_, h3, h4⟩
-      · rw [h3] at hcp; cases hcp
-      · rw [h4] at hcp; exact absurd hcp h3
+              by rw [hss.sendBuf, hss.sendWindow, hss.cfg.sendPktsize]; exact hw1.exit, fun _ => hss.recvBuf, ?_, ?_,
+              fun _ => hss.recvBuf, by rw [hss.recvWindow, hss.cfg.initWindow]; exact hw1.half⟩
+      all_goals
+        intro hcp
+        rcases hss.fired with ⟨_, _, h3⟩ | ⟨_, h3, h4⟩
+        · rw [h3] at hcp; cases hcp
+        · rw [h4] at hcp; exact absurd hcp h3
     · exact hw1
   | pause =>
     obtain ⟨rfl, _, _⟩ := step_pause_ok h
-    exact ⟨⟨hw.s.chanOpen, hw.s.drained⟩, hw.exit, by simp, by simp, hw.closedR, hw.half⟩
+    exact ⟨⟨hw.s.chanOpen, hw.s.drained⟩, hw.exit, by simp, by simp, hw.closePB, hw.closedR, hw.half⟩
   | resume =>
     rcases step_resume_ok h with ⟨_, h1⟩ | ⟨_, rfl, _⟩
     · have hw0 : WFs { c with recvPaused := .no } := ⟨hw.s.chanOpen, hw.s.drained⟩
@@ -310,7 +315,7 @@ theorem step_wf (c c' : Chan) (ev : Ev) (ms : List Msg) (os : List Out) (hw : WF
     · exact hw
   | armPause k =>
     obtain ⟨rfl, _, _⟩ := step_arm_ok h
-    exact ⟨⟨hw.s.chanOpen, hw.s.drained⟩, hw.exit, hw.unpaused, hw.closeP, hw.closedR, hw.half⟩
+    exact ⟨⟨hw.s.chanOpen, hw.s.drained⟩, hw.exit, hw.unpaused, hw.closeP, hw.closePB, hw.closedR, hw.half⟩
   | startReading =>
     rcases step_start_ok h with ⟨_, h1⟩ | ⟨_, rfl, _⟩
     · have hw0 : WFs { c with recvPaused := .no } := ⟨hw.s.chanOpen, hw.s.drained⟩
@@ -325,13 +330,14 @@ theorem step_wf (c c' : Chan) (ev : Ev) (ms : List Msg) (os : List Out) (hw : WF
       · rw [h1] at ha; cases ha; exact hw
       · rw [h1] at ha; cases ha
         exact ⟨⟨hw.s.chanOpen, hw.s.drained⟩, hw.exit, fun h2 => absurd h2 hp, hw.closeP,
-          by intro h2; simp [hs] at h2, hw.half⟩
+          by intro h2; simp [hs] at h2, by intro h2; simp [hs] at h2, hw.half⟩
       · rw [h1] at ha
         obtain ⟨sp, _⟩ := deliverData_spec c bs dt
         rw [ha] at sp
         simp only at sp
-        refine ⟨sp.same.wfs hw.s, by rw [sp.same.sendBuf, sp.same.sendWindow]; exact hw.exit,
-          fun _ => by rw [sp.recvBuf]; exact hw.unpaused hp, ?_, ?_, ?_⟩
+        refine ⟨sp.same.wfs hw.s, by rw [sp.same.sendBuf, sp.same.sendWindow, sp.same.sendPktsize]; exact hw.exit,
+          fun _ => by rw [sp.recvBuf]; exact hw.unpaused hp, ?_, ?_, ?_, ?_⟩
+        · intro h2; rw [sp.same.recvState, hs] at h2; cases h2
         · intro h2; rw [sp.same.recvState, hs] at h2; cases h2
         · intro h2; rw [sp.same.recvState, hs] at h2; cases h2
         · rw [sp.same.initWindow]; exact sp.half
@@ -346,7 +352,8 @@ theorem step_wf (c c' : Chan) (ev : Ev) (ms : List Msg) (os : List Out) (hw : WF
     | close =>
       obtain ⟨_, ms1, h1, _⟩ := step_recv_close_ok h
       obtain ⟨hsr, hb, hwn, hst, hco, _, _, _, hwf⟩ := closeSend_spec c hw.s
-      have hw0 : WFs { (closeSend c).1 with recvState := .closePending } := ⟨hwf.chanOpen, hwf.drained⟩
+      have hw0 : WFs { (closeSend c).1 with recvEofPending := decide (c.recvState = .eofPending),
+                                            recvState := .closePending } := ⟨hwf.chanOpen, hwf.drained⟩
       exact WF.of_flushRecv (flushRecv_spec _ _ _ _ hw0 h1) (Or.inl hb) (by simp)
         (by show 2 * (closeSend c).1.recvWindow ≥ (closeSend c).1.initWindow
             rw [hsr.recvWindow, hsr.initWindow]; exact hw.half)
@@ -436,7 +443,8 @@ theorem step_sum (c c' : Chan) (ev : Ev) (ms : List Msg) (os : List Out) (hw : W
           ⟨by simp only [ne_eq, reduceCtorEq, not_false_eq_true, iff_true]; exact hop, by simp⟩
         have sp := flushSend_spec _ _ _ hw0 h1
         refine ⟨⟨sp.same.initWindow, sp.same.readTypes, sp.same.writeTypes, sp.same.eofKeep, sp.same.sendPktsize,
-          sp.same.recvState, sp.same.recvWindow, sp.same.recvPaused, sp.same.recvBuf, sp.same.pauseAfter⟩,
+          sp.same.recvState, sp.same.recvWindow, sp.same.recvPaused, sp.same.recvBuf, sp.same.pauseAfter,
+          sp.same.recvEofPending⟩,
           ?_, sp.stream, sp.window, sp.pktBound, sp.noAdjust, fun _ => hop⟩
         by_cases he : c.sendState = .eof
         · have hb : c.sendBuf = [] := hw.s.drained (Or.inl he)
@@ -538,9 +546,9 @@ theorem step_sum (c c' : Chan) (ev : Ev) (ms : List Msg) (os : List Out) (hw : W
     | close =>
       obtain ⟨_, ms1, h1, rfl⟩ := step_recv_close_ok h
       obtain ⟨hsr, hb, hwn, hst, hco, hp0, hd0, ha0, hwf⟩ := closeSend_spec c hw.s
-      have hw0 : WFs { (closeSend c).1 with recvState := .closePending } := ⟨hwf.chanOpen, hwf.drained⟩
+      have hw0 : WFs { (closeSend c).1 with recvEofPending := decide (c.recvState = .eofPending), recvState := .closePending } := ⟨hwf.chanOpen, hwf.drained⟩
       have e := (flushRecv_spec _ _ _ _ hw0 h1).eff
-      have hs2 : sStage { (closeSend c).1 with recvState := .closePending } = 2 := by simp [sStage, hst]
+      have hs2 : sStage { (closeSend c).1 with recvEofPending := decide (c.recvState = .eofPending), recvState := .closePending } = 2 := by simp [sStage, hst]
       refine ⟨hsr.cfg.trans ⟨e.cfg.1, e.cfg.2, e.cfg.3, e.cfg.4, e.cfg.5⟩, ?_, ?_, ?_, ?_, ?_, ?_, ?_, ?_, ?_⟩
       · exact LinkOK_append _ _ _ 2 _ hp0 (hs2 ▸ e.path)
       · rw [e.rstage]; simp [evStage, rStage]
